@@ -42,6 +42,9 @@ pub struct ConfigCase {
 pub enum ConfigAny {
     Small(ConfigCase),
     Medium { meta: crate::checks::metamorphic::MetaCase, kissat: bool, picks: Vec<u8> },
+    /// One problem put to the command line front end under every --encoding value and with the
+    /// embedded solver, the harness's external solver and (when installed) kissat.
+    CliMatrix { g: gen::AbsGraph, q: u8, sem: u8, arg: u16, cert: bool },
 }
 
 pub struct Config;
@@ -217,7 +220,9 @@ impl Prop for Config {
     fn strategy(&self, tier: Tier) -> BoxedStrategy<ConfigAny> {
         let medium = (crate::checks::metamorphic::meta_strategy(tier), any::<bool>(), vec(any::<u8>(), 3..=6))
             .prop_map(|(meta, kissat, picks)| ConfigAny::Medium { meta, kissat, picks });
-        prop_oneof![250 => self.small_strategy(tier).prop_map(ConfigAny::Small), 1 => medium].boxed()
+        let matrix = (gen::graph(8), 0u8..3, 0u8..7, any::<u16>(), any::<bool>())
+            .prop_map(|(g, q, sem, arg, cert)| ConfigAny::CliMatrix { g, q, sem, arg, cert });
+        prop_oneof![250 => self.small_strategy(tier).prop_map(ConfigAny::Small), 1 => medium, 2 => matrix].boxed()
     }
     fn max_shrink_iters(&self) -> u32 {
         3_000
@@ -228,6 +233,7 @@ impl Prop for Config {
     fn run(&self, case: &ConfigAny, rec: &mut Rec) -> CheckResult {
         match case {
             ConfigAny::Small(c) => self.run_small(c, rec),
+            ConfigAny::CliMatrix { g, q, sem, arg, cert } => self.run_cli_matrix(g, *q, *sem, *arg, *cert, rec).map_err(|f| f.unshrinkable()),
             ConfigAny::Medium { meta, kissat, picks } => {
                 let fake = FakeSat::get();
                 fake.configure(json!({}));
@@ -309,5 +315,108 @@ impl Config {
             Built::U(af, labels) => self.run_generic(&af, &labels, case, enc, &backend, bname, fk, rec),
             Built::S(af, labels) => self.run_generic(&af, &labels, case, enc, &backend, bname, fk, rec),
         }
+    }
+}
+
+impl Config {
+    /// The first answer line of `crustabri solve` may not depend on --encoding nor on the backend.
+    fn run_cli_matrix(&self, ag: &gen::AbsGraph, q: u8, sem: u8, arg: u16, cert: bool, rec: &mut Rec) -> CheckResult {
+        use crate::repobin;
+        let q = [Q::SE, Q::DC, Q::DS][q as usize % 3];
+        let sem = oracle::ALL_SEMS[sem as usize % oracle::ALL_SEMS.len()];
+        if ag.n == 0 && q != Q::SE {
+            return Ok(());
+        }
+        let (bin, _) = repobin::ensure().map_err(|e| Failure::new("C06/cli-matrix/cannot-build-repo-binaries", e).unshrinkable())?;
+        let g = G::new(ag.n, &ag.att_usize());
+        let fams = Fams::new(&g);
+        let exts = fams.exts(sem);
+        let a = idx(arg, ag.n.max(1));
+        let expected = match q {
+            Q::SE => !exts.is_empty(),
+            Q::DC => oracle::dc(&exts, 1 << a),
+            Q::DS => oracle::ds(&exts, 1 << a),
+        };
+        let fake = FakeSat::get();
+        fake.configure(json!({}));
+        let file = fake.dir.join("matrix.af");
+        std::fs::write(&file, crate::build::iccma_text(ag)).map_err(|e| Failure::new("C06/cli-matrix/scratch-write", e.to_string()))?;
+        let mut backends: Vec<(&str, Vec<String>)> = vec![
+            ("embedded", vec![]),
+            ("fake_sat", vec!["--external-sat-solver".into(), fake.exe.clone(), "--external-sat-solver-opt".into(), fake.option()]),
+        ];
+        if let Some(k) = crate::extsat::kissat() {
+            // a value starting with a hyphen has to be attached with "=" (clap would take it for a flag otherwise)
+            backends.push(("kissat", vec!["--external-sat-solver".into(), k, "--external-sat-solver-opt=-q".into()]));
+        }
+        let mut compared = 0u64;
+        for encoding in ["", "aux_var", "exp", "hybrid"] {
+            if encoding == "exp" && crate::checks::statics::exp_cost(ag, true) > crate::checks::statics::EXP_LIMIT {
+                continue;
+            }
+            for (bname, bargs) in &backends {
+                let mut args: Vec<String> = vec![
+                    "solve".into(),
+                    "-f".into(),
+                    file.to_string_lossy().to_string(),
+                    "-p".into(),
+                    format!("{}-{}", q.name(), sem.name()),
+                ];
+                if q != Q::SE {
+                    args.push("-a".into());
+                    args.push((a + 1).to_string());
+                }
+                if cert {
+                    args.push("--with-certificate".into());
+                }
+                if !encoding.is_empty() {
+                    args.push("--encoding".into());
+                    args.push(encoding.into());
+                }
+                args.push("--logging-level".into());
+                args.push("off".into());
+                args.extend(bargs.iter().cloned());
+                rec.eval();
+                let out = repobin::run_cli(&bin, &args, std::time::Duration::from_secs(60));
+                if out.timed_out {
+                    rec.inconclusive("cli-timeout");
+                    continue;
+                }
+                let sig = format!("C06/cli-matrix/{}-{}/encoding-{}/{}", q.name(), sem.name(), if encoding.is_empty() { "default" } else { encoding }, bname);
+                let lines = repobin::answer_lines(&out.stdout);
+                let status = match lines.first().map(|l| l.trim_end()) {
+                    Some("YES") => Some(true),
+                    Some("NO") => Some(false),
+                    Some(l) if q == Q::SE && (l == "w" || l.starts_with("w ")) => Some(true),
+                    _ => None,
+                };
+                if out.code != Some(0) || status.is_none() {
+                    return Err(Failure::new(
+                        format!("{}/no-status", sig),
+                        format!("argv {:?} exit {:?} stdout {:?} stderr {:?}", args, out.code, out.stdout.chars().take(300).collect::<String>(), out.stderr.chars().take(300).collect::<String>()),
+                    ));
+                }
+                if status != Some(expected) {
+                    return Err(Failure::new(
+                        format!("{}/status-differs-from-the-other-configurations", sig),
+                        format!("argv {:?}: got {:?}, the reference answer (and the other configurations) say {}", args, lines.first(), expected),
+                    ));
+                }
+                compared += 1;
+            }
+        }
+        let bad = fake.illformed();
+        if !bad.is_empty() {
+            return Err(Failure::new("C06/cli-matrix/ill-formed-dimacs", bad[0].chars().take(400).collect::<String>()));
+        }
+        rec.count("cli-configurations-compared", compared);
+        rec.class("cli-matrix-encodings-x-backends");
+        if exts.len() >= 2 || exts.is_empty() {
+            if rec.nontrivial(&("cli-matrix", ag.canonical(), q, sem, a, cert)) {
+                rec.sample(|| json!({"cli_matrix": {"graph": ag, "problem": format!("{}-{}", q.name(), sem.name()), "argument": a + 1,
+                    "with_certificate": cert, "configurations_compared": compared, "expected_status": expected}}));
+            }
+        }
+        Ok(())
     }
 }
